@@ -42,6 +42,7 @@ class C10(Spec):
     theorems = ["Nun.C10_panic_sites_justified", "Nun.C10_replicate_needs_selection"]
     rule = ("every command word (and unknown ones) x 0-1 arguments exhaustively and 2-5 arguments seeded from the quantifier's token alphabet "
             "(empty, non-numeric, i32/u64/u128 boundaries, $$ keys, ';', newline, 600-byte token, non-ASCII), plus random printable/UTF-8 strings, plus long lines (20-9000 characters) of 2-, 3- and 4-byte UTF-8 characters at every byte alignment (so that a character straddles every possible byte offset); "
+            "every snapshot / replicate-snapshot form over database lists (known, unknown, mixed, both orders) and the replicate-* commands with the node's replication loop pumped after each; "
             "each line runs on an unauthenticated, an admin and an arbiter-database session, followed by a probe set/get from another client; "
             "catch_unwind around process_request, lock-poison flags in the dump. non-trivial = line is not answered 'unknown command'; distinct by trace hash")
 
@@ -61,6 +62,18 @@ class C10(Spec):
                 c = list(SETUP)
                 for l in ls[i:i + per]: c += [f"C {sess} {l}"] + PROBE
                 cases.append(c)
+        # the node's own replication loop is a handler too: every command word with database-list arguments (known, unknown, mixed, in both
+        # orders), the loop pumped after each — a command answered `ok` must not hand the loop something it cannot digest
+        SETUP_P = ["RESET primary,pump"] + SETUP[1:]
+        lists = ["t", "ghost", "t|ghost", "ghost|t", "ghost|t|ta", "t|ta", "|", "t|", "|t", "ghost|ghost2"]
+        for w in ("snapshot false", "snapshot true", "replicate-snapshot", "replicate-snapshot true", "replicate-snapshot false"):
+            for l in lists:
+                for form in (f"{w} {l}", f"{w} {l} false", f"{w} {l} true"):
+                    cases.append(SETUP_P + [f"C 1 {form}", "PUMP"] + PROBE + ["PUMP", "C 1 set after 1", "PUMP"] + PROBE)
+        for w in ("replicate", "replicate-remove", "replicate-increment"):
+            for dbn in ("t", "ghost", "ta"):
+                for rest in ("k 1 v", "k", "k x", ""):
+                    cases.append(SETUP_P + [f"C 1 {w} {dbn} {rest}".rstrip(), "PUMP"] + PROBE + ["PUMP"])
         # stateful numeric boundaries: a stored boundary value / version followed by a boundary delta
         nums = [t for t in TOKENS if re.fullmatch(r"[+-]?[0-9]+", t)]
         for b in nums:
@@ -73,11 +86,13 @@ class C10(Spec):
         return any(l.startswith("R ") and "unknown command" not in l and "probe" not in l for l in impl)
 
     def oracle(self, case, impl):
-        fails = []
+        fails = []; last_reply = "-"
         steps = core.parse_steps(impl)
         for (inp, rest, dump) in steps:
             for r in rest:
                 if r.startswith("R PANIC"): fails.append(Failure("panic", f"{inp[:80]}: {r[:160]}"))
+                if r.startswith("K PANIC"): fails.append(Failure("replication-loop-died", f"{inp[:80]}: {r[:160]} (the command before it was answered: {last_reply})"))
+            if inp.startswith("C "): last_reply = next((x for x in rest if x.startswith("R ")), "R ?")[:60]
             if any(d.startswith("D poisoned") for d in dump): fails.append(Failure("lock-poisoned", f"after {inp[:80]}"))
             if inp == "C 9 get probe":
                 r = next((x for x in rest if x.startswith("R ")), "R ?")
